@@ -21,7 +21,7 @@ RULE = ('Cases = small valid frames (1-3 instruments, 1-8 stamps, 0-3 layers, VV
         'pure-Python screening model calls the coerced rows illegal (both directions; any other exception type is a '
         'failure); otherwise the result is a new object with exactly the four columns, the dtypes of '
         'hardcoded.REQ_DATA_COLS and values equal to the coerced rows positionally; the argument is deep-equal to its '
-        'pre-call copy; check(check(x)) equals check(x) and emits no column/dtype warning; CeiloChunk(x) agrees on '
+        'pre-call copy; check(check(x)) equals check(x) and emits no column/dtype warning; frames derived from a checked output by pandas operations and then made illegal (duplicated row, type 0 + hit, VV + hit) are still refused; CeiloChunk(x) agrees on '
         'accept/refuse. Non-trivial = >= 1 injected defect or near-miss or a dtype/layout variant. Distinct by (defect '
         'kinds, dtype kinds, layout).')
 ENGINE = 'hypothesis (16 shards) + atheris/libFuzzer driving the same strategy through fuzz_one_input with ampycloud instrumented for coverage'
@@ -303,6 +303,36 @@ def check(case):
                             res.fail('idempotent', 'checking an already-checked frame changes it', detail)
                     except Exception as exc:
                         res.fail('idempotent', 'checking an already-checked frame raises', f'{exc!r} {detail}')
+                # history: a frame *derived from the checked output* (so that any metadata pandas propagates comes
+                # along) and then made illegal must still be refused
+                derived = []
+                if len(out) >= 1:
+                    derived.append(('duplicated row', pd.concat([out, out.iloc[[len(out) // 2]]])))
+                    hit = [i for i, t in enumerate(out['type'].tolist()) if t != 0]
+                    if hit:
+                        bad = out.copy()
+                        extra = out.iloc[[hit[0]]].copy()
+                        extra['type'] = 0
+                        extra['height'] = float('nan')
+                        derived.append(('type 0 + hit', pd.concat([bad, extra], ignore_index=True)))
+                    typed = [i for i, t in enumerate(out['type'].tolist()) if t > 0]
+                    if typed:
+                        bad = out.copy()
+                        extra = out.iloc[[typed[0]]].copy()
+                        extra['type'] = -1
+                        extra['height'] = 4321.0
+                        derived.append(('VV + hit', pd.concat([bad, extra], ignore_index=True)))
+                for what, bad in derived:
+                    try:
+                        with warnings.catch_warnings():
+                            warnings.simplefilter('ignore')
+                            utils.check_data_consistency(bad)
+                        res.fail('accepts', f'illegal frame derived from a checked output accepted ({what})', detail)
+                    except AmpycloudError:
+                        pass
+                    except Exception as exc:
+                        res.fail('errtype', f'illegal frame derived from a checked output refused with {type(exc).__name__}',
+                                 detail)
                 colw = [str(w.message) for w in wlist if str(w.message).startswith('Column ')]
                 if colw:
                     res.fail('idempotent', 'already-checked frame still triggers a column/dtype warning',
